@@ -107,12 +107,13 @@ def check(case, ctx):
         why = "person-count" if len(P2) != len(P) else "von" if [p.von for p in P] != [p.von for p in P2] else "jr-first" if [p.jr for p in P] != [p.jr for p in P2] else "parts"
         out.append(Violation("not-inverse", f"C14:function:not-inverse:{why}", dict(value=v, merged=v2, before=np_list(P), after=np_list(P2))))
     # document level (sampled; the middlewares delegate to the functions above)
-    doc_ok = not any(w.endswith("\\") for p in pieces for s in R.tokenize(p) for w in s) and "@" not in v and "\\{" not in v and "\\}" not in v
-    if not out and doc_ok and (ctx.cases % 12 == 0 or (len(v2) > 70 and ctx.cases % 9 == 0)):
+    # (words ending in an even, non-zero run of backslashes and '\\\\{' are inside the quantifier: escapes are read pairwise)
+    doc_ok = "@" not in v
+    if not out and doc_ok and (case.get("doc") or ctx.cases % 12 == 0 or (len(v2) > 70 and ctx.cases % 9 == 0)):
         # rotate on the number of document-level evaluations so far (NOT on ctx.cases: the sampling condition above
         # makes ctx.cases a multiple of 3, which pinned the field to "author")
         rot = ctx.monitors["document_inverse"] // 2 % 3
-        for field in ("author", "editor", "translator")[rot:rot + 1]:
+        for field in ("author", "editor", "translator") if case.get("doc") else ("author", "editor", "translator")[rot:rot + 1]:
             for inplace in (True, False):
                 doc = "@string{s = {x}}\n%% free\n@article{k,\n title = {A {T}itle},\n %s = {%s},\n year = 1999\n}\n@comment{c}\n" % (field, v)
                 mk_parse = lambda: [N.SeparateCoAuthors(allow_inplace_modification=inplace), N.SplitNameParts(allow_inplace_modification=inplace)]  # noqa
@@ -156,6 +157,8 @@ def check(case, ctx):
                     break
             if out:
                 break
+    if any(x["sig"].startswith("C14:doc") for x in out):
+        case["doc"] = True          # a stored witness replays the (otherwise sampled) document-level step
     ctx.state(f"n={min(len(P), 3)} von={has_von} jr={has_jr}")
     if multi or has_von or has_jr:
         ctx.nontriv(v)
